@@ -75,4 +75,8 @@ def model_key(events):
     # twins: how often (0, 1, 2+) each fixed name was already defined is part of the state
     names = [ev["name"] for ev in events if "name" in ev]
     fixed = tuple(sorted((n, min(names.count(n), 2)) for n in set(names)))
-    return (tuple(kinds), last.get("k"), last.get("doc", 0), last.get("impl"), fixed)
+    # which kind of block the last event closed (leaving an inner class is not the same state as leaving an if)
+    closed = None
+    if last.get("k") == "close":
+        closed = stack_of(events[:-1])[-1][0] if stack_of(events[:-1]) else None
+    return (tuple(kinds), last.get("k"), last.get("doc", 0), last.get("impl"), fixed, closed)
